@@ -70,6 +70,9 @@ pub struct Workspace {
     pub host: AnalysisHost,
     pub fs: MemFs,
     pub root: FileId,
+    /// the text the analysis holds for the root (it is never re-read from the file system, so it
+    /// can differ from `fs` after a disk-only change)
+    pub root_text: Option<String>,
 }
 
 impl Workspace {
@@ -85,7 +88,7 @@ impl Workspace {
         let text = fs.files.get(&PathBuf::from(&root_path)).cloned().unwrap_or_default();
         host.set_file_content(root_id, Arc::from(text.as_str()));
         host.set_root_file(&mut fs, root_id);
-        Workspace { host, fs, root: root_id }
+        Workspace { host, fs, root: root_id, root_text: Some(text) }
     }
 
     pub fn from_case(case: &Value) -> Option<Workspace> {
@@ -101,6 +104,7 @@ impl Workspace {
         self.host.set_file_content(id, Arc::from(text));
         self.host.set_root_file(&mut self.fs, id);
         self.root = id;
+        self.root_text = Some(text.to_string());
     }
 
     /// API-style edit: new text, root unchanged (sources re-collected from the old root)
@@ -110,7 +114,29 @@ impl Workspace {
         let id = self.fs.assign_or_get_file_id(FilePath(PathBuf::from(&p)));
         self.host.set_file_content(id, Arc::from(text));
         let root = self.root;
+        if id == root {
+            self.root_text = Some(text.to_string());
+        }
         self.host.set_root_file(&mut self.fs, root);
+    }
+
+    /// the file changes on "disk" only: the analysis is not told (it re-reads included files the
+    /// next time the sources are collected)
+    pub fn fs_only_edit(&mut self, path: &str, text: &str) {
+        self.fs.files.insert(PathBuf::from(abs(path)), text.to_string());
+    }
+
+    /// fresh workspace whose root text is given explicitly (the root is never re-read from disk)
+    pub fn new_with_root_text(files: &[(String, String)], root: &str, root_text: &str) -> Workspace {
+        let mut fs = MemFs::default();
+        for (p, t) in files {
+            fs.files.insert(PathBuf::from(abs(p)), t.clone());
+        }
+        let mut host = AnalysisHost::new();
+        let root_id = fs.assign_or_get_file_id(FilePath(PathBuf::from(abs(root))));
+        host.set_file_content(root_id, Arc::from(root_text));
+        host.set_root_file(&mut fs, root_id);
+        Workspace { host, fs, root: root_id, root_text: Some(root_text.to_string()) }
     }
 
     pub fn switch_root(&mut self, path: &str) {
@@ -120,6 +146,7 @@ impl Workspace {
         self.host.set_file_content(id, Arc::from(text.as_str()));
         self.host.set_root_file(&mut self.fs, id);
         self.root = id;
+        self.root_text = Some(text);
     }
 
     pub fn analysis(&self) -> Analysis {
@@ -127,6 +154,11 @@ impl Workspace {
     }
 
     pub fn text_of(&self, id: FileId) -> Option<&String> {
+        if id == self.root {
+            if let Some(t) = &self.root_text {
+                return Some(t);
+            }
+        }
         let p = self.fs.path_of(id)?;
         self.fs.files.get(&PathBuf::from(p))
     }
